@@ -500,6 +500,9 @@ class Engine:
             return v.loc, v.path
         if isinstance(v, Opaque):
             return self.heap_loc(st, v), ()
+        if isinstance(v, StrV):
+            # a string literal is modelled by value: `&(*lit)` re-borrows the same string
+            return st.temp(v), ()
         raise MirError(f'deref of non-reference {vrepr(v)}')
 
     def concrete_int(self, st, v):
